@@ -98,8 +98,8 @@ def check_tables(ctx):
         if isinstance(val, dict):
             lit = literal_to_ast(val)
             for n in ast.walk(lit):
-                if hasattr(n, "lineno"):
-                    n.lineno = getattr(v, "lineno", 1)
+                n.lineno = getattr(v, "lineno", 1)
+                n.col_offset = 0
             return lit
         return v
 
